@@ -46,7 +46,15 @@ func readTlvStream(
 				break
 			}
 
+			// The length is untrusted: bound it before converting to int (a huge value would
+			// become negative) and never wait for a TLV that cannot fit in the reserved space.
+			if uint64(len) > defn.MaxNDNPacketSize {
+				return errors.New("received TLV block larger than the maximum packet size")
+			}
 			tlvSize := typ.EncodingLength() + len.EncodingLength() + int(len)
+			if tlvSize > defn.MaxNDNPacketSize {
+				return errors.New("received TLV block larger than the maximum packet size")
+			}
 
 			if recvOff-tlvOff >= tlvSize {
 				// Packet was successfully received, send up to link service
